@@ -88,6 +88,11 @@ def program(entry, wrapper, k, bound):
     elif entry == "curried":
         src = f"f = n => m => {base(W('f(n + 1)(m)'))}\noutput r = f(0)(0)"
         exp, per = L, 2
+    elif entry == "forward-helper-in-do-blocks":
+        # the body uses a top-level helper that is defined AFTER the function (looked up at the call through the whole
+        # chain of scopes the nested do-blocks and calls have built up)
+        src = f"f = n => {base(W('f(zz_succ(n))'))}\nzz_succ = m => m + 1\noutput r = f(0)"
+        exp, per = L, 2
     elif entry == "anonymous-self-application":
         lam = f"((self, n) => {base(W('self(self, n + 1)'))})"
         src = f"output r = {lam}({lam}, 0)"
@@ -108,7 +113,7 @@ def program(entry, wrapper, k, bound):
 
 DIRECT = ["self", "mutual2", "mutual3", "via-callback", "into", "where-callback", "do-block-body", "curried",
           # cycles on which no function has a name (functions are named by a direct `name = lambda` binding only)
-          "anonymous-self-application", "anonymous-record-method", "anonymous-list-element", "anonymous-callback-cycle"]
+          "anonymous-self-application", "anonymous-record-method", "anonymous-list-element", "anonymous-callback-cycle", "forward-helper-in-do-blocks"]
 CALLBACK = ["map-callback", "filter-callback", "reduce-callback", "every-callback", "group_by-callback"]
 
 
@@ -129,6 +134,8 @@ def offline(ctx, res):
                 w = wnames[i % len(wnames)]
                 if e in non_numeric and w not in agnostic:
                     w = agnostic[i % len(agnostic)]
+                if e == "forward-helper-in-do-blocks":
+                    w = "do-block"
                 i += 1
                 nl = NAME_LENGTHS[i % len(NAME_LENGTHS)]
                 cases.append((e, w, k, None, nl))
